@@ -107,6 +107,11 @@ type PartAdder func(string) []string
 
 // BuildName builds a name from segments
 func (s SplitKey) BuildName(segments []string, startIndex int, adder PartAdder) string {
+	if startIndex > len(s) {
+		// a short, non-standard pointer: nothing to add to the base segments
+		startIndex = len(s)
+	}
+
 	for i, part := range s[startIndex:] {
 		if _, ignored := ignoredKeys[part]; !ignored || s.isKeyName(startIndex+i) {
 			segments = append(segments, adder(part)...)
